@@ -9,35 +9,59 @@
   Model: `Yae/Model/Sql.lean` (`toSql` = `ext.CompileToSql`, `emit` = the closure built by
   `sql.Compile`, `fmtVal`), `Yae/Model/SqlRead.lean` (the reference reader `readSql` with standard
   SQL precedence; `c20Check` is the property in executable form, run by the differential stream
-  `sql` on every generated criteria tree).  Proofs: `Yae.Proofs.SqlLemmas`, `Yae.Proofs.NumLemmas`.
+  `sql` on every generated criteria tree); `Yae/Spec/SqlSide.lean` (the side condition `sideOK`).
+  Proofs: `Yae.Proofs.SqlLemmas`, `Yae.Proofs.NumLemmas`, and for the structural theorem
+  `Yae.Proofs.SqlDoc` (the shape of the text), `SqlLexStr`/`SqlLexNum`/`SqlLex` (tokenizer),
+  `SqlParseFuel`/`SqlParse` (parser), `SqlStructCheck` (type checker), `SqlStructTree`/`SqlStructBase`/
+  `SqlStructCall`/`SqlStruct` (`emit`), `SqlStructWitness` (concrete runs through the polymorphic `IN`).
 
   What is PROVED here, and what is not:
+  * **structure** (`structural`, `c20Check_holds`): whenever `toSql` produces a text and the
+    decidable side condition `sideOK venv c` (`Yae/Spec/SqlSide.lean`) holds, the reference reader
+    `readSql` — tokenizer and precedence-climbing parser with standard SQL precedence, run with the
+    fuel it really uses — reads the text as a tree `t` with `flatten t = flatten w`, `w` the meaning
+    `treeOf venv c` of the criteria; i.e. `c20Check c tenv venv = some true`.  No hypothesis on
+    the compile-time environment, on string operands (arbitrary strings, see `tokenize_quote`:
+    the reader's own scanner `strBody` + UTF-8 decoding reads `quote s` back as the one token
+    `.str s` whatever follows), on the nesting of groups, on negative numbers or times.  The proof
+    goes through the type checker (`check_nameOK`: a statically resolved call refers to a
+    registered function with the callee's name), `emit` (`emit_doc`: the text is a well-formed
+    `Doc`), the tokenizer (`tokens_doc`) and the parser (`parse_doc`, `parseOr_fuel_ok`).
+    `sideOK` excludes the following, and for each exclusion a kernel-checked counterexample
+    (`toSql` produces a text, `c20Check = some false`) is given below:
+      - SQL1: a NaN / ±Inf number (`sql1_nan`, `sql1_inf`; the Float is a variable constrained by
+        its bit pattern, `Float` being opaque to the kernel);
+      - a column name containing a back quote (`backquote_in_column`);
+      - SQL3: `IN` with an unbound list-typed NAME as second operand (`sql3_in_name`);
+      - an empty list literal (`empty_list`; the checker lets `z IN []` through when `z : ⊥`), a
+        one-element list literal elsewhere than directly under `IN` (`one_element_row`);
+      - a function application as an operand of a condition where the missing parentheses matter
+        (`call_operand_cmp`: `b = (s = t)` is written `b = s = t`; `call_operand_logic`:
+        `b = (b AND c)` is written `b = b AND c`; `call_operand_first`: `(b AND c) = b` is written
+        `b AND c = b`).  A condition as the FIRST operand (`(x = y) = z`, written `x = y = z`: the
+        reader nests to the left) and applications as list items are allowed and proved
+        (`first_operand_condition_ok`);
+      - a `Cond` whose operator is named AND/OR/NOT (`cond_named_connective`): a defect of the
+        specification function `treeOf` rather than of the Go code (it files such a `Cond` under
+        `.cond`, the text is a connective).
+    NOT proved: nothing about inputs outside `sideOK` (the exclusions are the counterexamples;
+    for NaN/±Inf the witnesses use a literal, a bound name or `o.f` holding such a number goes
+    through the same `fmtVal`).  `Num.isFinite x` cannot be discharged for a concrete `Float` in
+    the kernel (`Float.toBits` is opaque): the non-vacuity example with numbers keeps the numbers as variables
+    with finiteness hypotheses; a closed example (strings, a time, a bound name) is given as well.
   * scalars in their exact form: `fmtVal_bool`, `fmtVal_num`, `fmtVal_time`, `fmtVal_str`,
     `fmtVal_unsupported` (kernel-checked unfoldings; the findings SQL1 — NaN/±Inf written
-    verbatim — and SQL2 — sub-second part of a time dropped — are visible in them: `fmtVal_num`
-    is `Num.renderNum x` for EVERY `x`, `fmtVal_time` only mentions `t.sec`);
+    verbatim — and SQL2 — sub-second part of a time dropped — are visible in them), and
+    `finite_number_is_literal`: every finite number is written as `-?digits(.digits)?`;
   * substitution: `bound_name_substituted`, `unbound_name_is_column`;
-  * strings: `quote_roundtrip` (`strconv.Unquote ∘ strconv.Quote = id`), `quote_injective`, and
-    `string_literal_reads_back_partial`: scanning `quote s ++ rest` with the rules of Go-quote
-    syntax ends the literal exactly at the quote that `quote` appended, with content `s`, and
-    leaves `rest` untouched — for ANY `rest`: no character of the operand can end the literal early
-    or swallow what follows.  PARTIAL: the scanner is `Num.unquoteBody` (the model of
-    `strconv.Unquote`, on characters), not the reader's own `strBody` (the same grammar on UTF-8
-    bytes followed by `String.fromUTF8?`); that the two agree is exercised by `c20Check` in the
-    differential stream, not proved.
-  * nesting: `paren_rule_partial` — a call compiled in a context of precedence `outer` is
-    wrapped in parentheses iff it is a logical connective of LOWER precedence (`paren_table`: OR
-    under AND; AND and OR under NOT; nothing under OR or at top level; conditions never), and the
-    reader turns a parenthesised expression back into the expression (`reader_parens`).
-    NOT proved: the structural theorem
-        `toSql c tenv venv = .ok text → readSql text = some t → treeOf venv c = some w →
-           flatten t = flatten w`
-    (`c20Check … = some true` for all inputs), not even on the connective skeleton: it needs the
-    inversion of the fuel-driven precedence-climbing parser over `emit` up to `flatten` (and the
-    type checker `check` in `toSql`).  Kernel-checked instances of the reader on the token
-    sequences of each row of `paren_table` are given as `example`s.
+  * strings: `quote_roundtrip`, `quote_injective`, `string_literal_reads_back` (for the reader's
+    own tokenizer, any operand, any following text) and the older
+    `string_literal_reads_back_partial` (the same for the `strconv.Unquote` scanner);
+  * nesting: `paren_rule_partial`, `paren_table`, `reader_parens` (subsumed by `structural`).
 -/
 import Yae.Proofs.SqlLemmas
+import Yae.Proofs.SqlStruct
+import Yae.Proofs.SqlStructWitness
 namespace Yae.C20
 open Yae Yae.Sql Yae.SqlLemmas
 
@@ -171,6 +195,187 @@ example : (parseOr 100 [.bq "a", .word "AND", .bq "b", .word "AND", .bq "c"]).ma
     some (flatten (.and (.cons (.col "a") (.cons (.and (.cons (.col "b") (.cons (.col "c") .nil))) .nil)))) := by
   rfl
 
+/-! ## structure -/
+
+/-- **C20, the structural theorem.**  Whenever a WHERE text is produced and the side condition
+`sideOK venv c` holds (see the header for what it excludes and why), the reference reader — standard
+SQL precedence: comparison, NOT, AND, OR — reads the text as the meaning of the criteria tree, up to
+the associativity of AND and of OR. -/
+theorem structural (c : Criteria) (tenv : List (String × Ty)) (venv : List (String × Val))
+    (text : String) (h : toSql c tenv venv = .ok text) (hside : sideOK venv c = true) :
+    ∃ t w, readSql text = some t ∧ treeOf venv c = some w ∧ flatten t = flatten w :=
+  SqlStruct.structure_main c tenv venv text h hside
+
+/-- the same in executable form: the differential check `c20Check` answers `true` -/
+theorem c20Check_holds (c : Criteria) (tenv : List (String × Ty)) (venv : List (String × Val))
+    (text : String) (h : toSql c tenv venv = .ok text) (hside : sideOK venv c = true) :
+    c20Check c tenv venv = some true :=
+  SqlStruct.c20Check_true c tenv venv text h hside
+
+/-- `c20Check` answers only when a text was produced -/
+theorem c20Check_some {c tenv venv b} (h : c20Check c tenv venv = some b) :
+    ∃ text, toSql c tenv venv = .ok text := by
+  unfold c20Check at h
+  split at h
+  · cases h
+  · next text ht => exact ⟨text, ht⟩
+
+/-- every string operand is one token of the reader, whatever follows (the reader's own scanner) -/
+theorem string_literal_reads_back (s : String) (fuel : Nat) (rest : List Char) (acc : List Tok) :
+    tokenize (fuel + 1) ((Num.quote s).toList ++ rest) acc = tokenize fuel rest (Tok.str s :: acc) :=
+  SqlLex.tokenize_quote s fuel rest acc
+
+/-- every finite number is written as a numeric literal `-?digits(.digits)?` -/
+theorem finite_number_is_literal (x : Float) (h : Num.isFinite x = true) :
+    SqlLex.IsNumLex (Num.renderNum x).toList :=
+  SqlLex.renderNumBits_isNumLex _ (SqlStruct.isFinite_expField h)
+
+/-! ### the exclusions of `sideOK` are necessary: counterexamples -/
+
+private def u := Pos.unknown
+private def el (xs : List Expr) := ExprList.ofList xs
+
+/-- `Except` has no decidable equality: "the text is `s`" as a Bool -/
+def textIs (r : Except SqlErr String) (s : String) : Bool :=
+  match r with
+  | .ok t => t == s
+  | .error _ => false
+
+theorem textIs_iff {r : Except SqlErr String} {s : String} : textIs r s = true ↔ r = .ok s := by
+  cases r <;> simp [textIs]
+
+/-- SQL1: NaN is written verbatim, which is not a literal of the dialect -/
+theorem sql1_nan (x : Float) (hx : x.toBits = Num.nanBits) :
+    toSql (.cond "a" "=" (el [.num u x])) [("a", .num)] [] = .ok "`a` = NaN" ∧
+    c20Check (.cond "a" "=" (el [.num u x])) [("a", .num)] [] = some false ∧
+    sideOK [] (.cond "a" "=" (el [.num u x])) = false := by
+  have h1 : toSql (.cond "a" "=" (el [.num u x])) [("a", .num)] [] =
+      .ok ("`a`" ++ " " ++ "=" ++ " " ++ Num.renderNum x) := by rfl
+  have h2 : Num.renderNum x = "NaN" := by unfold Num.renderNum; rw [hx]; decide +kernel
+  have h3 : readSql ("`a`" ++ " " ++ "=" ++ " " ++ "NaN") = none := by decide +kernel
+  have h4 : "`a`" ++ " " ++ "=" ++ " " ++ "NaN" = "`a` = NaN" := by decide +kernel
+  have h5 : Num.isFinite x = false := by unfold Num.isFinite; rw [hx]; decide +kernel
+  rw [h2] at h1
+  refine ⟨by rw [h1, h4], ?_, ?_⟩
+  · unfold c20Check; rw [h1]; simp only [h3]
+  · simp [sideOK, Criteria.expr, mkCall, okE, okList, el, ExprList.ofList, argPos, logicNames,
+      ArgPos.head, ArgPos.tail, h5]
+
+/-- SQL1: +Inf likewise -/
+theorem sql1_inf (x : Float) (hx : x.toBits = Num.infBits) :
+    toSql (.cond "a" "=" (el [.num u x])) [("a", .num)] [] = .ok "`a` = +Inf" ∧
+    c20Check (.cond "a" "=" (el [.num u x])) [("a", .num)] [] = some false := by
+  have h1 : toSql (.cond "a" "=" (el [.num u x])) [("a", .num)] [] =
+      .ok ("`a`" ++ " " ++ "=" ++ " " ++ Num.renderNum x) := by rfl
+  have h2 : Num.renderNum x = "+Inf" := by unfold Num.renderNum; rw [hx]; decide +kernel
+  have h3 : readSql ("`a`" ++ " " ++ "=" ++ " " ++ "+Inf") = none := by decide +kernel
+  have h4 : "`a`" ++ " " ++ "=" ++ " " ++ "+Inf" = "`a` = +Inf" := by decide +kernel
+  rw [h2] at h1
+  refine ⟨by rw [h1, h4], ?_⟩
+  unfold c20Check; rw [h1]; simp only [h3]
+
+/-- a back quote in a column name ends the identifier early -/
+theorem backquote_in_column :
+    textIs (toSql (.cond "a`b" "=" (el [.str u "x"])) [("a`b", .str)] []) "`a`b` = \"x\"" = true ∧
+    c20Check (.cond "a`b" "=" (el [.str u "x"])) [("a`b", .str)] [] = some false ∧
+    sideOK [] (.cond "a`b" "=" (el [.str u "x"])) = false := by decide +kernel
+
+/-- an application as an operand is not parenthesised: `b = (s = t)` is written `b = s = t`, which
+reads `(b = s) = t` -/
+theorem call_operand_cmp :
+    textIs (toSql (.cond "b" "=" (el [mkCall "=" (el [.ident u "s", .ident u "t"])]))
+      [("b", .bool), ("s", .str), ("t", .str)] []) "`b` = `s` = `t`" = true ∧
+    c20Check (.cond "b" "=" (el [mkCall "=" (el [.ident u "s", .ident u "t"])]))
+      [("b", .bool), ("s", .str), ("t", .str)] [] = some false ∧
+    sideOK [] (.cond "b" "=" (el [mkCall "=" (el [.ident u "s", .ident u "t"])])) = false := by
+  decide +kernel
+
+/-- … and `b = (b AND c)` is written `b = b AND c`, which reads `(b = b) AND c` -/
+theorem call_operand_logic :
+    textIs (toSql (.cond "b" "=" (el [mkCall "AND" (el [.ident u "b", .ident u "c"])]))
+      [("b", .bool), ("c", .bool)] []) "`b` = `b` AND `c`" = true ∧
+    c20Check (.cond "b" "=" (el [mkCall "AND" (el [.ident u "b", .ident u "c"])]))
+      [("b", .bool), ("c", .bool)] [] = some false ∧
+    sideOK [] (.cond "b" "=" (el [mkCall "AND" (el [.ident u "b", .ident u "c"])])) = false := by
+  decide +kernel
+
+open SqlStruct.Wit in
+/-- … also as the FIRST operand (only expressible inside a list item): `(b AND c) = b` is written
+`b AND c = b`, which reads `b AND (c = b)` -/
+theorem call_operand_first :
+    toSql cFirstBad tFirst [] = .ok "`b` IN (`b` AND `c` = `b`)" ∧
+    c20Check cFirstBad tFirst [] = some false ∧ sideOK [] cFirstBad = false :=
+  ⟨firstBad_text, firstBad_check, by decide +kernel⟩
+
+open SqlStruct.Wit in
+/-- whereas a *condition* as the first operand needs no parentheses: `(s = t) = b` is written
+`s = t = b` and the reader nests to the left; the side condition admits it -/
+theorem first_operand_condition_ok :
+    toSql cFirstGood tFirst [] = .ok "`b` IN (`s` = `t` = `b`)" ∧ sideOK [] cFirstGood = true ∧
+    c20Check cFirstGood tFirst [] = some true :=
+  ⟨firstGood_text, by decide +kernel,
+    c20Check_holds _ _ _ _ firstGood_text (by decide +kernel)⟩
+
+/-- a `Cond` named like a connective: the text is the connective, `treeOf` says condition -/
+theorem cond_named_connective :
+    textIs (toSql (.cond "b" "AND" (el [.ident u "c"])) [("b", .bool), ("c", .bool)] [])
+      "`b` AND `c`" = true ∧
+    c20Check (.cond "b" "AND" (el [.ident u "c"])) [("b", .bool), ("c", .bool)] [] = some false ∧
+    c20Check (.cond "b" "NOT" (el [])) [("b", .bool)] [] = some false ∧
+    sideOK [] (.cond "b" "AND" (el [.ident u "c"])) = false := by
+  decide +kernel
+
+open SqlStruct.Wit in
+/-- SQL3: an unbound list-typed name as the second operand of `IN` -/
+theorem sql3_in_name :
+    toSql cSql3 tSql3 [] = .ok "`a` IN `l`" ∧ c20Check cSql3 tSql3 [] = some false ∧
+    sideOK [] cSql3 = false :=
+  ⟨sql3_text, sql3_check, by decide +kernel⟩
+
+open SqlStruct.Wit in
+/-- `IN ()`: the reader (and SQL) wants at least one item -/
+theorem empty_list :
+    toSql cEmpty tEmpty [] = .ok "`z` IN ()" ∧ c20Check cEmpty tEmpty [] = some false ∧
+    sideOK [] cEmpty = false :=
+  ⟨empty_text, empty_check, by decide +kernel⟩
+
+open SqlStruct.Wit in
+/-- a one-element row is read as a parenthesised expression -/
+theorem one_element_row :
+    toSql cOne tOne [] = .ok "`l` IN ((\"x\"), (\"y\"))" ∧ c20Check cOne tOne [] = some false ∧
+    sideOK [] cOne = false :=
+  ⟨one_text, one_check, by decide +kernel⟩
+
+/-! ### non-vacuity: the hypotheses of `structural` are met -/
+
+open SqlStruct.Wit in
+/-- `(a = "x" OR t > from_unixtime(-3)) AND NOT (c IN ("p", n))` with `n` bound to the string
+``q"` `` at run time: a text is produced, the side condition holds -/
+example : toSql cGood tGood vGood =
+      .ok "(`a` = \"x\" OR `t` > from_unixtime(-3)) AND NOT `c` IN (\"p\", \"q\\\"`\")" ∧
+    sideOK vGood cGood = true :=
+  ⟨good_text, by decide +kernel⟩
+
+open SqlStruct.Wit in
+example : c20Check cGood tGood vGood = some true :=
+  c20Check_holds _ _ _ _ good_text (by decide +kernel)
+
+open SqlStruct.Wit in
+/-- `(a = "x" OR b > x3) AND NOT (c IN (x1, x2))` with `b` bound to the number `y` at run time, for
+any finite numbers (`Float` is opaque to the kernel, hence the variables) -/
+theorem numbers_example (x3 x1 x2 y : Float) (h3 : Num.isFinite x3 = true)
+    (h1 : Num.isFinite x1 = true) (h2 : Num.isFinite x2 = true) (hy : Num.isFinite y = true) :
+    c20Check (cNum x3 x1 x2) tNum (vNum y) = some true := by
+  obtain ⟨text, ht⟩ := num_ok x3 x1 x2 y
+  refine c20Check_holds _ _ _ text ht ?_
+  simp [sideOK, cNum, vNum, condOpsOK, condOpsOKList, Criteria.expr, exprs, mkCall, okE, okList,
+    okName, okVal, argPos, logicNames, LogicalOper.name, ArgPos.head, ArgPos.tail, ExprList.length,
+    ExprList.ofList, SqlStruct.Wit.el, h1, h2, h3, hy]
+
+/-- the finiteness hypothesis is satisfiable at the level of bit patterns -/
+example : Num.expField 0x4008000000000000 ≠ 2047 := by decide
+
+
 end Yae.C20
 
 #print axioms Yae.C20.fmtVal_bool
@@ -186,3 +391,20 @@ end Yae.C20
 #print axioms Yae.C20.paren_rule_partial
 #print axioms Yae.C20.paren_table
 #print axioms Yae.C20.reader_parens
+#print axioms Yae.C20.structural
+#print axioms Yae.C20.c20Check_holds
+#print axioms Yae.C20.c20Check_some
+#print axioms Yae.C20.string_literal_reads_back
+#print axioms Yae.C20.finite_number_is_literal
+#print axioms Yae.C20.sql1_nan
+#print axioms Yae.C20.sql1_inf
+#print axioms Yae.C20.backquote_in_column
+#print axioms Yae.C20.call_operand_cmp
+#print axioms Yae.C20.call_operand_logic
+#print axioms Yae.C20.cond_named_connective
+#print axioms Yae.C20.call_operand_first
+#print axioms Yae.C20.first_operand_condition_ok
+#print axioms Yae.C20.sql3_in_name
+#print axioms Yae.C20.empty_list
+#print axioms Yae.C20.one_element_row
+#print axioms Yae.C20.numbers_example
